@@ -36,6 +36,7 @@ structure SEv where
   unref : Nat := 0
   destroyed : Bool := false
   dead : Bool := false      -- the operation was asked to reference an object that is already destroyed
+  copied : List Nat := []   -- elements copy-constructed from this object
   deriving Repr, DecidableEq, Inhabited
 
 /-- one allowed outcome of an operation -/
@@ -113,5 +114,21 @@ def extUnref (s : SSt) (o : Nat) : List Alt :=
   let s1 := { s with objs := s.objs.set o { (s.objs.getD o default) with ext := (s.objs.getD o default).ext - 1 } }
   let (s', d) := released s1 o
   [{ ok := true, st := s', evs := [{ obj := o, unref := 1, destroyed := d }] }]
+
+/-- private copy of the buffer behind handle `h`: refused without any change; kept when the handle is the only
+    reference; or a NEW buffer with the same elements and one reference takes its place in the handle while
+    the old one loses that reference — copied when others still use it, moved (and gone) when not -/
+def detach (s : SSt) (h : Nat) : List Alt :=
+  match s.hnd.getD h none with
+  | none => [{ ok := false, st := s }]
+  | some o =>
+    let ob := s.objs.getD o default
+    let n := s.objs.length
+    let shared := refs s o > 1
+    let s1 : SSt := { objs := s.objs ++ [{ kind := .rbuf, ext := 0, elems := ob.elems }], hnd := s.hnd.set h (some n) }
+    let s2 : SSt := if shared then s1
+      else { s1 with objs := s1.objs.set o { ob with dead := true, elems := [] } }
+    [{ ok := false, st := s }] ++ (if shared then [] else [{ ok := true, st := s }]) ++
+      [{ ok := true, st := s2, evs := if shared then [{ obj := o, copied := ob.elems }] else [] }]
 
 end Mpt.Refs
